@@ -90,7 +90,7 @@ def verify_registry(reg, only=None, both=False, log=None):
     results = solve.discharge(items, both=both)
     for pair, r in zip(index, results):
         pair[1] = r
-    smoke_res = solve.discharge(smoke_items, z3_timeout=1500, use_cvc5=False) if smoke_items else []
+    smoke_res = solve.discharge(smoke_items, z3_timeout=1500, use_cvc5=False, single_pass=True) if smoke_items else []
     for rep, r in zip(smoke_index, smoke_res):
         rep.smoke = r
     ax_smoke = smoke_res[-1] if smoke_res else None
